@@ -2,6 +2,7 @@ package rules
 
 import (
 	"fmt"
+	"go/token"
 	"go/types"
 	"sort"
 	"strings"
@@ -180,6 +181,12 @@ func ruleGuardedTypes(c *Ctx, rule string, typesIn []string, minTypes, minFields
 					}
 				}
 				own := strings.HasPrefix(k, T+".")
+				// a component cannot be synchronised by a lock of one of its clients: a lock class that lives in another package
+				// than the component's type (the command's per-generation listener set, say) is not taken by the component's
+				// other users, and is a different mutex per client object (seed C19-u1)
+				if !own && lockClassPkg(k) != lockClassPkg(T+".x") {
+					continue
+				}
 				if okW && (guard == "" || (own && !strings.HasPrefix(guard, T+".")) || (own == strings.HasPrefix(guard, T+".") && k < guard)) {
 					guard = k
 				}
@@ -187,6 +194,33 @@ func ruleGuardedTypes(c *Ctx, rule string, typesIn []string, minTypes, minFields
 			if guard != "" {
 				table = append(table, fieldClass{key, "guarded", len(live), writes, guard})
 				c.Check(rule, key, p.IPos(live[0].Ins), true, fmt.Sprintf("guarded by %s on all %d accesses (%d writes, exclusive)||", guard, len(live), writes))
+				// a map field holds a reference: loading it under the lock protects the load only. Every lookup, update, delete,
+				// len and iteration step made through the loaded reference must itself run under the guard (seed C19-u2: a
+				// "snapshot" `conns := m.keyConn` taken under RLock and ranged over after RUnlock walks the live table unlocked)
+				if _, isMap := fl.Type().Underlying().(*types.Map); isMap {
+					for _, a := range live {
+						if a.Write {
+							continue
+						}
+						fa, isFA := a.Ins.(*ssa.FieldAddr)
+						if !isFA || fa.Referrers() == nil {
+							continue
+						}
+						for _, r := range *fa.Referrers() {
+							ld, isLd := r.(*ssa.UnOp)
+							if !isLd || ld.Op != token.MUL || ld.Referrers() == nil {
+								continue
+							}
+							for _, u := range mapRefUses(ld) {
+								h := l.Held(u)
+								if h.Has(guard) {
+									continue
+								}
+								c.CheckAt(rule, key+":map-reference-used-under-guard:"+short(a.Fn), u, false, fmt.Sprintf("the map loaded from %s (guarded by %s) is read or written through that reference here holding only %s: the load was protected, this access to the shared table is not", key, guard, h))
+							}
+						}
+					}
+				}
 				continue
 			}
 			// write-once before go (reader goroutine reads)
@@ -421,7 +455,11 @@ func ruleLookupAcquire(c *Ctx, rule string) {
 			for _, g := range regionFns(c, f, nil, 2) {
 				// the method itself and the helpers it calls (a generic acquireShared(listeners, addr, newShared))
 				if g != f && g.Signature.Recv() != nil {
-					continue // methods of other types are judged on their own
+					// methods of other types are judged on their own — except those of a named map type (the manager's
+					// table with a lookup-or-create method): a map has no lock of its own, its methods run in the owner's section
+					if _, isMap := g.Signature.Recv().Type().Underlying().(*types.Map); !isMap {
+						continue
+					}
 				}
 				calls = append(calls, eng.Calls(g)...)
 			}
@@ -472,4 +510,64 @@ func ruleLookupAcquire(c *Ctx, rule string) {
 		}
 	}
 	c.Floor(rule, "Acquire calls made by listener-manager methods", n, 2)
+}
+
+// mapRefUses: the instructions that touch the map behind v (a loaded map reference) in v's own function: lookups, updates,
+// delete/len/clear builtins, and every Next of a range over it. Phi-merged and re-assigned copies are followed.
+func mapRefUses(v ssa.Value) []ssa.Instruction {
+	var out []ssa.Instruction
+	seen := map[ssa.Value]bool{}
+	var walk func(x ssa.Value)
+	walk = func(x ssa.Value) {
+		if seen[x] || x.Referrers() == nil {
+			return
+		}
+		seen[x] = true
+		for _, r := range *x.Referrers() {
+			switch u := r.(type) {
+			case *ssa.Lookup:
+				if u.X == x {
+					out = append(out, u)
+				}
+			case *ssa.MapUpdate:
+				if u.Map == x {
+					out = append(out, u)
+				}
+			case *ssa.Range:
+				if u.Referrers() != nil {
+					for _, n := range *u.Referrers() {
+						if nx, ok := n.(*ssa.Next); ok {
+							out = append(out, nx)
+						}
+					}
+				}
+			case *ssa.Call:
+				if b, ok := u.Call.Value.(*ssa.Builtin); ok && (b.Name() == "delete" || b.Name() == "len" || b.Name() == "clear") && len(u.Call.Args) > 0 && u.Call.Args[0] == x {
+					out = append(out, u)
+				}
+			case *ssa.Phi:
+				walk(u)
+			case *ssa.ChangeType:
+				walk(u)
+			}
+		}
+	}
+	walk(v)
+	return out
+}
+
+// lockClassPkg: the package part of a lock class "pkg/path.Type.field" ("" for local:/global: classes).
+func lockClassPkg(k string) string {
+	if strings.HasPrefix(k, "local:") || strings.HasPrefix(k, "global:") || strings.HasPrefix(k, "?") || strings.HasPrefix(k, "*") {
+		return ""
+	}
+	i := strings.LastIndex(k, ".")
+	if i < 0 {
+		return ""
+	}
+	j := strings.LastIndex(k[:i], ".")
+	if j < 0 {
+		return ""
+	}
+	return k[:j]
 }
